@@ -1,7 +1,7 @@
 """Per-property harness lists, bounds and trusted-base notes used by ./check."""
 
 DEFAULTS = {
-    "workers": 16, "timeout_ms": 30000, "max_paths": 20000, "max_steps": 3000000,
+    "workers": 16, "timeout_ms": 30000, "max_paths": 60000, "max_steps": 3000000,
     "max_decisions": 400, "budget": "280s", "params": {},
 }
 
@@ -73,13 +73,27 @@ prop("C07", bounds=PROG_BOUNDS, outside=PROG_OUT,
 # ------------------------------------------------------------------ C04
 prop("C04", bounds=PROG_BOUNDS, outside=PROG_OUT,
      harnesses=variants("txfile.VerifProgOwn", "every id returned by Alloc/AllocN is >= 2, not live, not freed-but-committed, not internal; ownership partition after every commit",
-                        {"nops": 2, "ntx": 2}, {"nops": 3, "ntx": 2}, quick_vs=(0, 1)))
+                        {"nops": 3, "ntx": 1}, {"nops": 2, "ntx": 2}, quick_vs=(0, 1)))
 
 # ------------------------------------------------------------------ C11
 prop("C11", bounds=PROG_BOUNDS, outside=PROG_OUT,
      harnesses=variants("txfile.VerifProgOwn", "allocatable + live + meta area + 2 == max pages, extent <= max, FileStats == model after every commit",
-                        {"nops": 2, "ntx": 2}, {"nops": 3, "ntx": 2}, vs=(0, 1, 4), quick_vs=(0, 1)))
+                        {"nops": 3, "ntx": 1}, {"nops": 2, "ntx": 2}, vs=(0, 1, 4), quick_vs=(0, 4)))
 
 CHECKS["C10"]["harnesses"] += variants("txfile.VerifProgReopen", "reopened instance == running instance (free lists, markers, meta area, overwrite log, root, stats, allocatable pages), then one more symbolic transaction",
                                         {"nops": 2, "ntx": 1, "nops2": 1}, {"nops": 3, "ntx": 2, "nops2": 1}, quick_vs=(0, 4))
 CHECKS["C10"]["bounds"] += "; " + PROG_BOUNDS
+
+# ------------------------------------------------------------------ C16
+prop("C16",
+     bounds="both txids and roots over the full 64-bit range; each header intact or damaged in checksum / magic / version (any differing 32-bit value) or zeroed; "
+            "page-size field of header 0 any value != 1024; one changed byte at any of the offsets 0..7 and 72..83 (any differing value); one FNV-1a step from any 32-bit state",
+     outside="multi-byte damage that happens to be FNV-consistent (indistinguishable from an intact header for any 32-bit checksum); one-byte damage at hashed offsets 8..71 follows from the FNV step lemmas by induction (paper step), the whole-stream query is out of the solvers' reach",
+     assumptions=["hash/fnv.New32a/Write/Sum32/UnmarshalBinary interpreted from the standard library source"],
+     harnesses=[
+         H("txfile.VerifMetaSelect", "readValidMeta: error iff both damaged; the only intact one; newer wins by signed txid difference incl. wrap; never panics", "2 x 4 damage kinds, 64-bit txids/roots"),
+         H("txfile.VerifMetaSlot1Location", "locating header 1 does not depend on a damaged header 0", "any 32-bit page-size value in header 0"),
+         H("txfile.VerifMetaOneByte", "Validate rejects a header with one changed byte", "offsets 0..7, 72..83 (quick) / 0..7, 64..83 (thorough)",
+           thorough={"params": {"tail": 64}, "timeout_ms": 120000}),
+         H("txfile.VerifFnvStep", "one step of hash/fnv 32a is injective in state and in byte", "all 2^32 states x 2^8 bytes"),
+     ])
